@@ -14,6 +14,8 @@ pub struct Report {
     pub max_violations: usize,
     pub max_per_kind: u64,
     pub exhaustive: Option<bool>,
+    /// named lists of case indices, concatenated across shards by the driver
+    pub lists: BTreeMap<String, Vec<u64>>,
 }
 
 impl Report {
@@ -29,6 +31,7 @@ impl Report {
             max_violations: std::env::var("LLGV_MAX_VIOL").ok().and_then(|x| x.parse().ok()).unwrap_or(400),
             max_per_kind: std::env::var("LLGV_MAX_PER_KIND").ok().and_then(|x| x.parse().ok()).unwrap_or(4),
             exhaustive: None,
+            lists: BTreeMap::new(),
         }
     }
     pub fn add(&mut self, key: &str, n: u64) {
@@ -55,6 +58,12 @@ impl Report {
     pub fn sample(&mut self, v: Value) {
         if self.samples.len() < self.max_samples {
             self.samples.push(v);
+        }
+    }
+    pub fn list(&mut self, name: &str, idx: u64) {
+        let l = self.lists.entry(name.to_string()).or_default();
+        if l.len() < 200_000 {
+            l.push(idx);
         }
     }
     pub fn note(&mut self, s: &str) {
@@ -94,6 +103,7 @@ impl Report {
             "violations": self.violations,
             "notes": self.notes,
             "exhaustive": self.exhaustive,
+            "lists": self.lists,
         })
     }
 }
